@@ -2,13 +2,15 @@
 (* spec -> code: TLC (simulation mode) chooses operation sequences of the ContentsSet_MC
    universe; each behaviour is printed once it has D operations and is replayed on a real
    contentsSet by drivers/c22_contentsset.py.  hist holds only the INPUTS of the operations
-   (and the binding-level choice `how`: entry or string, set or generator); the outcome is
+   (and the binding-level choice `how`: entry or string; contentsSet, generator, list, tuple or Python set); the outcome is
    recomputed from the implementation's observations by ContentsSet_Trace.                *)
 EXTENDS ContentsSet_MC
 CONSTANT D
 VARIABLE hist
 HowsOf(a) == IF a.op \in ByKey THEN {"entry", "str"}
-             ELSE IF a.op \in BinPure \cup BinUpd \cup Tests \cup {"update"} THEN {"set", "gen"}
+             ELSE IF a.op \in BinPure \cup BinUpd \cup Tests \cup {"update"}
+                  THEN (IF \E i \in DOMAIN a.arg : a.arg[i].kind = "str" THEN {} ELSE {"set"})
+                       \cup {"gen", "list", "tuple", "pyset"}
              ELSE {a.how}
 SimInit == Init /\ hist = <<>>
 \* simulation picks uniformly among successor STATES; drawing the operation first keeps the
